@@ -336,7 +336,16 @@ def join(a: Val, b: Val) -> Val:
     for x, y in ((a, b), (b, a)):
         if x.tags.get("simplex_rows") and y.tags.get("zero_init") and not y.tags.get("simplex_rows"):
             tags["simplex_rows"] = True
-    return Val(const, a.data | b.data, a.shp | b.shp, a.ctrl | b.ctrl, join_shape(a.shape, b.shape), u,
+    data = a.data | b.data
+    # an origin that reaches one side ONLY through a lossy map (o|clamp, o|proj, …) and the other side plainly: on some path the
+    # dependence is lossy — remembered as o|how|path (expression-level mixtures such as x - clip(x) never produce it)
+    for x_, y_ in ((a, b), (b, a)):
+        for o in x_.data:
+            if "|" in o and not o.endswith("|path"):
+                base = o.split("|", 1)[0]
+                if base not in x_.data and base in y_.data:
+                    data = data | {o + "|path"}
+    return Val(const, data, a.shp | b.shp, a.ctrl | b.ctrl, join_shape(a.shape, b.shape), u,
                a.frame if a.frame == b.frame else None, join_sign(a.sign, b.sign),
                join_fresh(a.fresh, b.fresh), a.refs | b.refs, items,
                a.term if a.term == b.term else (mk_term("phi", a.term, b.term) if (a.term and b.term) else None),
@@ -365,3 +374,12 @@ def join_env(e1, e2):
             v.tags["maybe_undef"] = True
             out[k] = v
     return out
+
+
+def plain_dep(data, o):
+    """`o` reaches the value and on no path only through a lossy map.  -> (ok, how) with how = the lossy variants seen"""
+    lossy = sorted(x for x in data if x.startswith(o + "|"))
+    if o not in data:
+        return False, lossy
+    onpath = [x for x in lossy if x.endswith("|path")]
+    return (not onpath), onpath
